@@ -552,7 +552,13 @@ func c18NilMapWrites(c *Ctx, r *Report) {
 // HasSuffix(x, "const") (the constant's length — two of them give the larger,
 // not the sum: prefix and suffix may overlap).
 func lenLowerBound(b *ssa.BasicBlock, x ssa.Value) int {
+	return lenLowerBoundWith(b, x, nil)
+}
+
+// lenLowerBoundWith: as lenLowerBound, with additional conditions known to hold (assertions that passed).
+func lenLowerBoundWith(b *ssa.BasicBlock, x ssa.Value, extra []Guard) int {
 	best := 0
+	excluded := map[int]bool{}
 	isLenOf := func(v ssa.Value) bool {
 		call, ok := v.(*ssa.Call)
 		if !ok {
@@ -561,7 +567,7 @@ func lenLowerBound(b *ssa.BasicBlock, x ssa.Value) int {
 		bi, ok := call.Call.Value.(*ssa.Builtin)
 		return ok && bi.Name() == "len" && sameStr(call.Call.Args[0], x)
 	}
-	for _, g := range GuardsAt(b) {
+	for _, g := range append(GuardsAt(b), extra...) {
 		switch c := g.Cond.(type) {
 		case *ssa.Call:
 			n := CalleeName(&c.Call)
@@ -606,11 +612,16 @@ func lenLowerBound(b *ssa.BasicBlock, x ssa.Value) int {
 				lb = k + 1
 			case op == token.EQL && g.Polarity, op == token.NEQ && !g.Polarity:
 				lb = k
+			case op == token.EQL && !g.Polarity, op == token.NEQ && g.Polarity:
+				excluded[k] = true // a switch on the length: earlier cases exclude exact values
 			}
 			if lb > best {
 				best = lb
 			}
 		}
+	}
+	for excluded[best] {
+		best++
 	}
 	return best
 }
@@ -1119,4 +1130,146 @@ func c18InrecNil(c *Ctx, r *Report) {
 		}
 	}
 	r.Floor("R18.13", "uses of the current record in the interpreter", n, 20)
+}
+
+// c18ASTChildren (R18.14): a child of an AST node is taken only where the
+// node is known to have that many children.
+func c18ASTChildren(c *Ctx, r *Report) {
+	r.Rule("R18.14", "an AST child is there before it is taken: in the interpreter's tree walks (functions over an AST node that call themselves on its children: pre-passes, validators, resolvers) every read astNode.Children[k] with a constant k is preceded — in a dominating block, or earlier in the same block — by tests or assertions (lib.InternalCodingErrorIf) that establish len(node.Children) >= k+1, or that pin the node to a type other than a call site (the grammar fixes the number of children of every other node type). The parser gives a call of a known function name whatever number of arguments the program wrote; the arity is checked later than some pre-passes run")
+	n, nwalk := 0, 0
+	for _, fn := range c.ModuleFunctions() {
+		if fn.Blocks == nil || fn.Pkg == nil || !strings.HasSuffix(fn.Pkg.Pkg.Path(), "/pkg/dsl/cst") {
+			continue
+		}
+		// a walk over the whole tree: the function calls itself on the children of its node. Such a walk meets
+		// every node type, call sites with any number of arguments included; a builder of one node type relies
+		// on the grammar for the number of children and is not examined
+		recursive := false
+		for _, b := range fn.Blocks {
+			for _, in := range b.Instrs {
+				if call, ok := in.(ssa.CallInstruction); ok && call.Common().StaticCallee() == fn {
+					recursive = true
+				}
+			}
+		}
+		if !recursive {
+			continue
+		}
+		nwalk++
+		idx := 0
+		for _, b := range fn.Blocks {
+			for ii, in := range b.Instrs {
+				ia, ok := in.(*ssa.IndexAddr)
+				if !ok {
+					continue
+				}
+				if _, isK := ssaConstInt(ia.Index); !isK {
+					continue
+				}
+				_, name, ok := fieldLoadName(ia.X)
+				if !ok || name != "Children" {
+					continue
+				}
+				n++
+				idx++
+				kconst, _ := ssaConstInt(ia.Index)
+				// assertions that passed on the way: InternalCodingErrorIf(cond) means cond is false afterwards
+				var asserted []Guard
+				typeFixed := false
+				nodeOf := func(v ssa.Value) ssa.Value { // the node whose .Children / .Type is loaded
+					base, _, ok := fieldLoadName(v)
+					if ok {
+						return base
+					}
+					return nil
+				}
+				node := nodeOf(ia.X)
+				isTypeOfNode := func(v ssa.Value) bool {
+					var walk func(v ssa.Value, depth int) bool
+					walk = func(v ssa.Value, depth int) bool {
+						if depth > 4 {
+							return false
+						}
+						if base, nm, ok := fieldLoadName(v); ok && nm == "Type" && (base == node || sameStr(base, node)) {
+							return true
+						}
+						switch x := v.(type) {
+						case *ssa.BinOp:
+							return walk(x.X, depth+1) || walk(x.Y, depth+1)
+						case *ssa.UnOp:
+							return walk(x.X, depth+1)
+						case *ssa.Phi:
+							for _, e := range x.Edges {
+								if walk(e, depth+1) {
+									return true
+								}
+							}
+						}
+						return false
+					}
+					return walk(v, 0)
+				}
+				mentionsCallsite := func(v ssa.Value) bool {
+					found := false
+					var walk func(v ssa.Value, depth int)
+					walk = func(v ssa.Value, depth int) {
+						if depth > 4 || found {
+							return
+						}
+						switch x := v.(type) {
+						case *ssa.Const:
+							if x.Value != nil && x.Value.Kind() == constant.String && strings.Contains(constant.StringVal(x.Value), "Callsite") {
+								found = true
+							}
+						case *ssa.BinOp:
+							walk(x.X, depth+1)
+							walk(x.Y, depth+1)
+						case *ssa.UnOp:
+							walk(x.X, depth+1)
+						case *ssa.Convert:
+							walk(x.X, depth+1)
+						case *ssa.ChangeType:
+							walk(x.X, depth+1)
+						case *ssa.Phi:
+							for _, e := range x.Edges {
+								walk(e, depth+1)
+							}
+						}
+					}
+					walk(v, 0)
+					return found
+				}
+				for d := b; d != nil; d = d.Idom() {
+					for jj, din := range d.Instrs {
+						if d == b && jj >= ii {
+							break
+						}
+						if call, ok := din.(*ssa.Call); ok {
+							cn := CalleeName(&call.Call)
+							if (strings.HasSuffix(cn, "InternalCodingErrorIf") || strings.HasSuffix(cn, "InternalCodingErrorWithMessageIf")) && len(call.Call.Args) >= 1 {
+								cond, pol := stripNot(call.Call.Args[0], false)
+								asserted = append(asserted, Guard{Cond: cond, Polarity: pol})
+								if isTypeOfNode(cond) && !mentionsCallsite(cond) {
+									typeFixed = true
+								}
+							}
+						}
+					}
+				}
+				// tests of the node's type on the way: the grammar fixes the number of children of every node type
+				// except call sites, whose arguments the program chooses
+				for _, g := range GuardsAt(b) {
+					if isTypeOfNode(g.Cond) && !mentionsCallsite(g.Cond) {
+						typeFixed = true
+					}
+				}
+				lb := lenLowerBoundWith(b, ia.X, asserted)
+				okRead := lb >= kconst+1 || typeFixed
+				r.Check(okRead, "R18.14", fmt.Sprintf("%s: child read #%d", SSAName(fn), idx), c.Rel(ia.Pos()), "the number of children is fixed before",
+					fmt.Sprintf("%s takes child [%d] of an AST node at %s, but what comes before establishes only %d children (and does not pin the node to a type whose number of children the grammar fixes): a program that calls a function with fewer arguments makes the process panic (index out of range)", SSAName(fn), kconst, c.Rel(ia.Pos()), lb))
+			}
+		}
+	}
+	r.OK("R18.14", "tree walks of the interpreter", "", fmt.Sprintf("%d recursive walks over AST nodes, %d constant-index child reads in them", nwalk, n))
+	r.Floor("R18.14", "recursive walks over AST nodes", nwalk, 5)
 }
